@@ -98,6 +98,12 @@ class Clock:
 CLOCK = Clock()
 
 
+def fixed_stamp(path):
+    import hashlib
+    h = int(hashlib.sha1(path.encode('utf-8', 'surrogatepass')).hexdigest()[:8], 16)
+    return 1_400_000_000_000_000_000 + h * 1000
+
+
 def write_file(path, data, stamp=None):
     """User/external side write with an explicit fresh mtime."""
     if isinstance(data, str):
